@@ -11,3 +11,5 @@ import Gomjml.Props.C18
 #print axioms Gomjml.Props.C18.C18_named_entity_replaced
 #print axioms Gomjml.Props.C18.C18_named_entities_are_their_characters
 #print axioms Gomjml.Props.C18.C18_tree_complete
+#print axioms Gomjml.Props.C18.C18_non_markup_verbatim
+#print axioms Gomjml.Props.C18.C18_entities_not_in_non_markup
